@@ -1414,6 +1414,12 @@ class Decider:
                 rec.count("undecided:bare-numpy-left-operand-is-C16")
                 status[n.id] = "skip"
                 continue
+            if forms[n.id] == "numbers" and nm[0] == "err" and mo[0][0] != "err":
+                # no quantity among the operands: the error is Python's own number arithmetic
+                # (divmod(float, Decimal) after int ** -int gave a float), pint is not involved
+                rec.count("undecided:python-number-arithmetic-raised")
+                status[n.id] = "skip"
+                continue
             if len(kinds) != 1:
                 # data dependent outcome classes inside one array (e.g. zero division): skip
                 rec.count("undecided:mixed-outcome-classes-in-array")
